@@ -147,6 +147,12 @@ func c11Build(r *rand.Rand, dir string) *c11Env {
 	}
 	nl3 := gen.ShuffledPresentation(r, nl2)
 	sort.Sort(sort.Reverse(sort.StringSlice(nl3.RootElements)))
+	// every slice of the shared operands has spare capacity (as slices grown by append have): an operation that
+	// appends to an operand's slice instead of a copy then writes into memory the operand owns - invisible to a
+	// snapshot of its elements, but a write all the same when two such calls overlap
+	spareList(nl)
+	spareList(nl2)
+	spareList(nl3)
 	env := &c11Env{doc: &sbom.Document{Metadata: md, NodeList: nl}, nl2: nl2, nl3: nl3, ids: ids, dir: dir, r: r}
 	env.probe = mk(r, "probe")
 	env.n2 = mk(r, ids[0])
